@@ -50,7 +50,7 @@ fn next_up32(x: f32) -> f32 {
 }
 
 pub fn gen_points(r: &mut Rng, d: usize, n: usize, arb: bool, fam: u64) -> (String, Vec<Vec<f64>>) {
-    let mut c = |r: &mut Rng, span: i64| if arb { arbitrary(r) } else { grid(r, span) };
+    let c = |r: &mut Rng, span: i64| if arb { arbitrary(r) } else { grid(r, span) };
     let (name, pts): (&str, Vec<Vec<f64>>) = match fam {
         0 => ("uniform", (0..n).map(|_| (0..d).map(|_| c(r, 512)).collect()).collect()),
         1 => {
@@ -149,6 +149,60 @@ pub fn gen_points(r: &mut Rng, d: usize, n: usize, arb: bool, fam: u64) -> (Stri
                     .collect(),
             )
         }
+        10 => {
+            // signed zeros: -0.0 / +0.0 / values whose f32 image underflows to +-0.0 / tiny
+            // subnormals, mixed with ordinary points on both sides, so that cuts land on zero
+            // and the pivot is a zero of either sign with the other sign present in the node
+            let zeros = [0.0f64, -0.0, 0.0, -0.0, 1e-60, -1e-60, 3e-46, -3e-46, 1e-45, -1e-45, 1e-40, -1e-40];
+            let others = [-2.0f64, -1.0, -0.5, 0.5, 1.0, 2.0, 3.0];
+            let pz = r.range(3, 7) as u64; // share of zero-like coordinates, out of 8
+            (
+                "signed_zero",
+                (0..n)
+                    .map(|_| {
+                        (0..d)
+                            .map(|_| if r.below(8) < pz { *r.pick(&zeros) } else { *r.pick(&others) })
+                            .collect()
+                    })
+                    .collect(),
+            )
+        }
+        11 => {
+            // dense cluster: many distinct binary32 values a few ulps apart (absolute width far
+            // below f32::EPSILON near 0, a few 1e-7 near 1, a few ulps near 1e6), plus a few far
+            // points; the balanced cut lies inside the cluster
+            let mut centres: Vec<f32> = Vec::new();
+            for _ in 0..d {
+                centres.push(*r.pick(&[0.0f32, 0.0, 1e-3, 0.3, 0.5, 1.0, 1.0, -1.0, 1e6, -1e6]));
+            }
+            let step = r.range(1, 3);
+            let far = r.range(0, 2) as usize;
+            (
+                "dense_cluster",
+                (0..n)
+                    .map(|i| {
+                        (0..d)
+                            .map(|j| {
+                                if i < far {
+                                    return *r.pick(&[-7.0f64, 5.0, 1e3, -2e6, 4e6]);
+                                }
+                                let c = centres[j];
+                                let k = r.range(0, 24) * step;
+                                if c == 0.0 {
+                                    // multiples of 1e-9 / 1e-10 around zero, both signs
+                                    let unit = if step == 1 { 1e-9f32 } else { 1e-10f32 };
+                                    ((k - 12 * step) as f32 * unit) as f64
+                                } else if c > 0.0 {
+                                    f32::from_bits(c.to_bits() + k as u32) as f64
+                                } else {
+                                    f32::from_bits(c.to_bits() - 12 + k as u32) as f64
+                                }
+                            })
+                            .collect()
+                    })
+                    .collect(),
+            )
+        }
         _ => {
             // huge magnitudes: min + max overflows binary32 (class rcb-midpoint-overflow)
             (
@@ -198,16 +252,21 @@ pub fn gen_case(r: &mut Rng, tier: &str, c04: bool, big_ok: bool) -> Case {
     let fam = if big {
         *r.pick(&[0u64, 1, 4, 6])
     } else {
-        let f = r.below(if c04 { 44 } else { 36 });
+        let f = r.below(if c04 { 56 } else { 48 });
         if f < 28 {
             f % 7
-        } else if f < 36 {
-            7 + (f - 28) % 3 // the three known-finding families, rarely
+        } else if f < 34 {
+            7 + (f - 28) % 3 // the three float-edge families
+        } else if f < 41 {
+            10 // signed zeros
+        } else if f < 48 {
+            11 // dense cluster
         } else {
             *r.pick(&[1u64, 5, 5, 6])
         }
     };
     let (pname, pts) = gen_points(r, d, n, arb && fam < 7, fam);
+    let n = pts.len();
     let (_wname, ws) = gen_weights(r, n);
     let k = if big {
         r.range(1, 2) as usize
@@ -216,6 +275,8 @@ pub fn gen_case(r: &mut Rng, tier: &str, c04: bool, big_ok: bool) -> Case {
     } else {
         r.range(0, 6) as usize
     };
+    // zero / cluster families: weights that put the cut inside the interesting group
+    let ws = if (fam == 10 || fam == 11) && r.chance(1, 2) { vec![1; n] } else { ws };
     let tol = match r.below(6) {
         0 => 0.0,
         1 => 0.05,
